@@ -25,13 +25,11 @@ def cone(vfile, seen=None):
     for sub in ('Gen', 'Model', 'Proofs', 'Props'):
         for f in coq_files(sub):
             byname[os.path.basename(f)[:-2]] = f
-    for line in open(vfile, encoding='utf-8'):
-        m = REQ.match(line)
-        if not m or 'From Coq' in line or 'From stdpp' in line:
+    text = open(vfile, encoding='utf-8').read()
+    for m in re.finditer(r'(?:From\s+(\w+)\s+)?Require\s+(?:Import|Export)\s+([^.]*(?:\.[A-Za-z][^.]*)*)\.(?=\s)', text):
+        if m.group(1) and m.group(1) != 'PP':
             continue
-        if line.lstrip().startswith('From') and 'From PP' not in line:
-            continue
-        for name in m.group(1).split():
+        for name in m.group(2).split():
             name = name.split('.')[-1]
             if name in byname:
                 cone(byname[name], seen)
